@@ -427,14 +427,100 @@ impl Part for Recursion {
     }
 }
 
-crate::declare_parts!(Recursion);
+
+// ------------------------------------------------------------------ reduced feature sets
+
+/// The same question with the engine built with a reduced feature set. The main harness needs
+/// most engine features itself, so these cases run in the binaries of the tiny `harness-min`
+/// crate (`./check` builds one per feature set and passes their paths in `MJV_MIN_<n>`): one
+/// process per case, a death by signal is the native stack overflow.
+#[derive(Clone, Debug, Serialize, Deserialize)]
+pub struct MinCase {
+    pub set: u8,
+    pub shape: u8,
+    pub limit: u16,
+    pub stack_kib: u32,
+}
+
+pub struct ReducedFeatureSets;
+
+pub const MIN_SETS: [&str; 4] = ["macros", "multi_template", "no_optional_features", "macros+multi_template"];
+const MIN_SHAPES: u8 = 14;
+
+impl Part for ReducedFeatureSets {
+    type Case = MinCase;
+    const NAME: &'static str = "reduced_feature_sets";
+
+    fn strategy(_tier: Tier) -> BoxedStrategy<MinCase> {
+        (0u8..4, 0..MIN_SHAPES, prop_oneof![1 => Just(500u16), 2 => 1u16..500], any::<bool>())
+            .prop_map(|(set, shape, limit, small)| MinCase { set, shape, limit, stack_kib: if small { 2048 } else { 8192 } })
+            .boxed()
+    }
+
+    fn enumeration(_tier: Tier) -> Vec<MinCase> {
+        let mut out = vec![];
+        for set in 0..4u8 {
+            for shape in 0..MIN_SHAPES {
+                for limit in [500u16, 100, 20, 1] {
+                    for stack_kib in [2048u32, 8192] {
+                        out.push(MinCase { set, shape, limit, stack_kib });
+                    }
+                }
+            }
+        }
+        out
+    }
+
+    fn check(c: &MinCase) -> Verdict {
+        let set = MIN_SETS[c.set as usize % MIN_SETS.len()];
+        let Ok(bin) = std::env::var(format!("MJV_MIN_{}", c.set as usize % MIN_SETS.len())) else {
+            return Verdict::pass(false).label("binary_not_built");
+        };
+        let out = std::process::Command::new(&bin)
+            .args([c.shape.to_string(), c.limit.to_string(), c.stack_kib.to_string()])
+            .stdin(std::process::Stdio::null())
+            .stderr(std::process::Stdio::piped())
+            .output();
+        let out = match out {
+            Ok(o) => o,
+            Err(_) => return Verdict::pass(false).label("binary_not_runnable"),
+        };
+        let line = String::from_utf8_lossy(&out.stdout).lines().last().unwrap_or("").to_string();
+        let mut v = Verdict::pass(true);
+        if !out.status.success() {
+            let err = String::from_utf8_lossy(&out.stderr);
+            let tail: String = err.lines().rev().take(2).collect::<Vec<_>>().join(" / ");
+            v.set_fail(
+                format!("reduced_feature_set:{set}:process_died"),
+                format!("engine built with feature set `{set}`: shape {} with recursion limit {} on a {} KiB thread ended the process ({:?}): {tail}", c.shape, c.limit, c.stack_kib, out.status),
+            );
+            return v;
+        }
+        match line.as_str() {
+            "limit" => v.labels.push("limit_error"),
+            "ok" => v.labels.push("finished_below_limit"),
+            "unsupported" => {
+                v.nontrivial = false;
+                v.labels.push("shape_needs_a_feature_that_is_off");
+            }
+            other => v.set_fail(
+                format!("reduced_feature_set:{set}:unexpected_outcome"),
+                format!("engine built with feature set `{set}`: shape {} with recursion limit {} gave {other:?}, expected success or `recursion limit exceeded`", c.shape, c.limit),
+            ),
+        }
+        v
+    }
+}
+
+crate::declare_parts!(Recursion, ReducedFeatureSets);
+
 
 pub fn replay_any(ctx: &mut Ctx, rf: &ReplayFile) -> bool {
     ctx.replay_isolated::<Recursion>(rf) || replay(ctx, rf)
 }
 
 pub fn run(ctx: &mut Ctx) {
-    ctx.rule = "recursive program shapes: directed cycles of length 1-4 over {macro call, call block / caller(), include, import, from-import} edges (every template of the cycle defines every node so that all edge kinds mix), recursive for-loops over data nested 1-900 deep, self.block() recursion, inheritance chains of 2-450 templates whose blocks call super(); each recursive step wrapped in 0-3 layers of non-recursive work (with, for, if, filter block, set-block, autoescape, nested combinations) and preceded in its frame by 0-2 completed evaluations (a finished helper macro call, include, call block, macro call in a set); unbounded or stopping by itself after 1-700 steps; recursion_limit 500, random in [1,500) and small values; debug info on/off; run in worker processes of the debug (opt-level 0) and release builds on 2 MiB and 8 MiB threads. Oracle: the worker survives; unbounded shapes return an error whose chain contains `recursion limit exceeded` (never Ok), bounded ones return Ok or that error, never another error; if limit L gives the limit error so do L/2 and L-1. Non-trivial: at least two edge kinds or two layers of frame work. Distinct by case.".into();
+    ctx.rule = "recursive program shapes: directed cycles of length 1-4 over {macro call, call block / caller(), include, import, from-import} edges (every template of the cycle defines every node so that all edge kinds mix), recursive for-loops over data nested 1-900 deep, self.block() recursion, inheritance chains of 2-450 templates whose blocks call super(); each recursive step wrapped in 0-3 layers of non-recursive work (with, for, if, filter block, set-block, autoescape, nested combinations) and preceded in its frame by 0-2 completed evaluations (a finished helper macro call, include, call block, macro call in a set); unbounded or stopping by itself after 1-700 steps; recursion_limit 500, random in [1,500) and small values; debug info on/off; run in worker processes of the debug (opt-level 0) and release builds on 2 MiB and 8 MiB threads. Oracle: the worker survives; unbounded shapes return an error whose chain contains `recursion limit exceeded` (never Ok), bounded ones return Ok or that error, never another error; if limit L gives the limit error so do L/2 and L-1. Besides, with the engine built with four reduced feature sets (macros only, multi_template only, neither, both; binaries of the harness-min crate, one process per case): 14 recursive shapes (macro self/mutual recursion, through call blocks, loops, with, set-blocks; recursive loops over data nested 1500 deep; include and import cycles) x limits 500/100/20/1 x 2 MiB and 8 MiB threads, enumerated completely - the process survives and reports success (bounded shape) or the limit error. Non-trivial: at least two edge kinds or two layers of frame work. Distinct by case.".into();
     ctx.assumptions = vec![
         "the listed block-call finding (self.block() / deep super() chains in debug builds on 2 MiB stacks) is keyed on crash signatures that name the block edge; other shapes are not tolerated".into(),
     ];
@@ -443,6 +529,7 @@ pub fn run(ctx: &mut Ctx) {
         ctx.run_finding_witnesses_isolated::<Recursion>(label);
         ctx.run_regressions_isolated::<Recursion>(label);
     }
+    ctx.run_enumerated::<ReducedFeatureSets>(ReducedFeatureSets::enumeration(t), true);
     ctx.run_part_isolated::<Recursion>("MJV_DBG", "debug", t.pick(600, 20_000), 120);
     ctx.run_part_isolated::<Recursion>("MJV_REL", "release", t.pick(1_500, 60_000), 120);
 }
